@@ -9,7 +9,7 @@ with open(os.path.join(core.SPEC, "dev_flags.json")) as _f:
     DEV = json.load(_f)
 
 CL = {"C18": {("C18", "connections_bounded"), ("C18", "tasks_bounded")},
-      "C19": {("C19", "no_wedge"), ("C19", "answer_matches_request"), ("C19", "request_fails_cleanly")}}
+      "C19": {("C19", "no_wedge"), ("C19", "answer_matches_request"), ("C19", "request_fails_cleanly"), ("C19", "later_request_completes")}}
 
 
 def check(pid, tier, replay=None):
@@ -31,22 +31,27 @@ def check(pid, tier, replay=None):
         for pos in (2, 1, 3):
             cases += [dict(id="C19-rating%d-%d" % (pos, i), iface="rating", fates=list(f), pos=pos, dense=False) for i, f in enumerate(fates)]
         cases += [dict(id="C19-dense-%d" % i, iface="rating", fates=list(f), pos=0, dense=True) for i, f in enumerate(fates)]
+        cross = [dict(id="C19-cross-%s" % ifc, iface=ifc, fates=["prompt"], pos=0, dense=False, cross=True) for ifc in ("abmf", "rating")]
         if tier == "quick":
             must = [c for c in cases if c["fates"][0] in ("late_idle", "late_during_next") and c["fates"][1] == "prompt" and c["fates"][2] == "prompt"]
             rest = [c for c in cases if c not in must]
             rnd.shuffle(rest)
             cases = must + rest[:10]
+        cases += cross
         mode, chunk, nw = "link", 1, 16
     else:
         if tier == "quick":
             cases = [dict(id="C18-a", n=10, subs=1, finalAt=0), dict(id="C18-b", n=100, subs=1, finalAt=4), dict(id="C18-c", n=100, subs=3, finalAt=0),
                      # peers that misbehave at connection level: capabilities exchange completing 2.5 s late on every third
                      # rating connection; the account peer closing every second connection right after the exchange
-                     dict(id="C18-g", n=4, subs=2, finalAt=0, peerFault="slowcea"), dict(id="C18-h", n=12, subs=6, finalAt=0, peerFault="dropaftercea")]
+                     dict(id="C18-g", n=4, subs=2, finalAt=0, peerFault="slowcea"), dict(id="C18-h", n=12, subs=6, finalAt=0, peerFault="dropaftercea"),
+                     # every update by a subscriber the CHF has not seen before (what a subscriber context keeps alive counts)
+                     dict(id="C18-i", n=40, subs=1, finalAt=0, newSubs=True)]
         else:
             cases = [dict(id="C18-a", n=10, subs=1, finalAt=0), dict(id="C18-b", n=100, subs=1, finalAt=4), dict(id="C18-c", n=1000, subs=3, finalAt=5),
                      dict(id="C18-d", n=1000, subs=1, finalAt=0), dict(id="C18-e", n=300, subs=8, finalAt=3), dict(id="C18-f", n=6, subs=6, finalAt=0, noAcct=True),
-                     dict(id="C18-g", n=12, subs=3, finalAt=0, peerFault="slowcea"), dict(id="C18-h", n=60, subs=6, finalAt=0, peerFault="dropaftercea")]
+                     dict(id="C18-g", n=12, subs=3, finalAt=0, peerFault="slowcea"), dict(id="C18-h", n=60, subs=6, finalAt=0, peerFault="dropaftercea"),
+                     dict(id="C18-i", n=400, subs=1, finalAt=0, newSubs=True)]
         mode, chunk, nw = "leak", 1, 6
     if replay:
         with open(replay) as f:
